@@ -177,9 +177,31 @@ def run(ctx):
     protocol_edges(ctx)
     many_files(ctx)
     metadata_and_scan_isolation(ctx)
+    lock_facts(ctx)
     dev_build_pass(ctx, docs, quick)
     if not quick:
         sanitizer_pass(ctx, docs)
+
+
+def lock_facts(ctx):
+    """what the lock monitor of the instrumented DashMap saw during the hostile sessions above: a request that takes a map lock
+    it already holds in a conflicting mode, or two code paths that nest two maps in opposite orders, can wedge the server
+    under the right timing even if it did not in this run"""
+    import glob
+    from ..locklog import LockFacts
+    facts = LockFacts()
+    logs = sorted(glob.glob(os.path.join(ctx.scratch_root, "lock_*.log")))
+    for l in logs:
+        facts.load(l)
+    ctx.judged(max(1, len(facts.edges)))
+    for c in facts.conflicts:
+        ctx.violation({"kind": "conflicting-reentrancy-on-a-map-lock", "map": c["map"].split(":", 1)[-1][:80], "held": c["held_mode"], "req": c["req_mode"]},
+                      {"same_shard": c["same_shard"], "backtrace": c.get("bt", "")[:1500]})
+    for cyc in facts.conflicting_cycles():
+        ctx.violation({"kind": "conflicting-lock-order-cycle", "cycle": cyc}, {"edges": [k for k in facts.edges if k[0] in [n for n, _ in cyc]]})
+    ctx.extra["lock_edges_seen"] = len(facts.edges)
+    if facts.edges:
+        ctx.nontrivial(("lock_edges_observed",))
 
 
 def protocol_edges(ctx):
